@@ -238,4 +238,27 @@ def run (c : Cfg) (ts : List Tok) : St × List Ev :=
   let (s, e) := runFrom c s0 (ts ++ [.eof])
   (s, e0 ++ e)
 
+
+/-! ### accessor values derived from the run (`WantsHeaders`, `WantsAddrV2`, `IsWitnessEnabled`,
+and the `ProtocolVersion()` an `OnVerAck` listener sees) -/
+
+/-- `sendHeadersPreferred` is set exactly when a `sendheaders` message is dispatched. -/
+def wantsHeaders (es : List Ev) : Bool := es.any (fun e => decide (e = Ev.cb .sendheaders))
+
+/-- `sendAddrV2` is set exactly when `waitToFinishNegotiation` accepts a `sendaddrv2`. -/
+def wantsAddrV2 (es : List Ev) : Bool := es.any (fun e => decide (e = Ev.cb .sendaddrv2))
+
+/-- Script convention: a version token whose pver is divisible by 3 advertises SFNodeWitness. -/
+def advertisesWitness (v : Nat) : Bool := v % 3 == 0
+
+/-- `witnessEnabled` is set together with `versionKnown` from the advertised services. -/
+def witnessEnabled (s : St) (es : List Ev) : Bool :=
+  s.versionKnown &&
+    match es.find? (fun e => match e with | .rd (.version _ _) => true | _ => false) with
+    | some (.rd (.version v _)) => advertisesWitness v
+    | _ => false
+
+/-- The negotiated version is final by the time `OnVerAck` runs. -/
+def ackPver (s : St) : Option Nat := if s.verAck then some s.pver else none
+
 end BV.C18
